@@ -166,6 +166,38 @@ func scenarios(w string, r *simctl.Rand, thorough bool) []scenario {
 			break
 		}
 	}
+	// exactly one violator among otherwise imperfect but conforming items
+	// (pass counts anywhere in [threshold, s], skewed but acceptable
+	// histograms): the error must name the violator - often item 0
+	nv := 3
+	if thorough {
+		nv = 10
+	}
+	for k := 0; k < nv; k++ {
+		vio := r.Intn(items)
+		if k%2 == 0 {
+			vio = 0
+		}
+		var d []ItemDirective
+		for it := 0; it < items; it++ {
+			if it == vio {
+				if k%4 < 2 {
+					_, be := BoundaryBinsH(s, r, -1, -1)
+					d = append(d, ItemDirective{Item: it, PassCount: -1, Bins: be})
+				} else {
+					d = append(d, ItemDirective{Item: it, PassCount: th - 1})
+				}
+				continue
+			}
+			ab, _ := BoundaryBinsH(s, r, r.Intn(10), -1)
+			x := ItemDirective{Item: it, PassCount: th + r.Intn(s-th+1)}
+			if r.Intn(2) == 0 {
+				x.Bins = ab
+			}
+			d = append(d, x)
+		}
+		add("one-violator-among-imperfect-items", d...)
+	}
 	// two different items violating different criteria
 	{
 		_, be := BoundaryBins(s, r, false)
